@@ -187,6 +187,20 @@ def check_writer(chk, fx, config):
         chk.oblig(ok, "ensures | VecWriter::%s" % item, "VecWriter::%s does not establish its contract post-condition: %s" % (item, why),
                   {"rule": "Writer contract ensures", "method": item},
                   {"obligation": "VecWriter::%s: buffer = old buffer with exactly the contract's effect" % item, "return_paths": len(rets)})
+    # an overwrite that lies inside the written data is carried out, never refused: under the in-range
+    # precondition every obligation of write_bytes_at (bounds, asserts, arithmetic) must be discharged
+    f = ms.get("write_bytes_at")
+    if f is not None:
+        eng = new_engine(chk, fx, inline_rw_impls=True)
+        st, selfref, W, cell = writer_state(eng, f)
+        b = VSlice(("origin", "bytes"), Lin.const(0), eng.len_sym("len(bytes)"), elem=eng.u8_ty())
+        off = eng.named_int(eng.usize_ty(), "offset")
+        st.cons.append(c_le(off.lin + b.len, W))
+        rets = eng.analyse(f["key"], args=[selfref, b, off], state=st, name="VecWriter::write_bytes_at(in range)[%s]" % config)
+        record_engine(chk, eng, "VecWriter::write_bytes_at with offset+len <= W [%s]: %d return paths" % (config, len(rets)))
+        chk.add_engine_obligs(eng, DECODE_KINDS, "C18 an in-range overwrite is not refused")
+        chk.oblig(len(rets) >= 1, "in-range | VecWriter::write_bytes_at", "write_bytes_at has no returning path for an in-range overwrite", {},
+                  {"obligation": "write_bytes_at returns for every offset+len <= W"})
     # refusal exists: write_bytes_at has a diverging path for out-of-range (checked above through 'returns only in range')
 
 
